@@ -87,16 +87,21 @@ Init ==
     \/ \E f \in DefForms, w \in WsKinds, dc \in 0..(NDeco - 1), p \in {"none", "both"},
           h \in {"norm", "ann", "ml"}, ds \in OrigDocs, b \in 0..(NBody - 1), t \in {"none", "tc", "last"} :
           Start([form |-> f, ws |-> w, deco |-> dc, pre |-> p, hdr |-> h, doc |-> ds, body |-> b,
-                 tail |-> t, embed |-> "-", ml |-> "-", lbody |-> "-", lpar |-> "-", cmt |-> FALSE])
+                 tail |-> t, embed |-> "-", ml |-> "-", lbody |-> "-", lpar |-> "-", cmt |-> FALSE, pick |-> 0])
     \/ \E f \in DefForms, w \in WsKinds, dc \in 0..(NDeco - 1), p \in {"none", "both"},
           ds \in {0, 2}, t \in {"none", "tc"} :
           Start([form |-> f, ws |-> w, deco |-> dc, pre |-> p, hdr |-> "one", doc |-> ds, body |-> 0,
-                 tail |-> t, embed |-> "-", ml |-> "-", lbody |-> "-", lpar |-> "-", cmt |-> FALSE])
+                 tail |-> t, embed |-> "-", ml |-> "-", lbody |-> "-", lpar |-> "-", cmt |-> FALSE, pick |-> 0])
     \/ \E f \in LamForms, w \in WsKinds, e \in Embeds, m \in MlKinds,
-          lb \in {"plain", "compr", "pp"}, lp \in {"xy", "x", "none"}, c \in BOOLEAN :
+          lb \in {"plain", "compr", "pp", "nest"}, lp \in {"xy", "x", "none"}, c \in BOOLEAN :
           /\ LamValid(f, e, m)
           /\ Start([form |-> f, ws |-> w, deco |-> 0, pre |-> "none", hdr |-> "-", doc |-> 0, body |-> 0,
-                    tail |-> "-", embed |-> e, ml |-> m, lbody |-> lb, lpar |-> lp, cmt |-> c])
+                    tail |-> "-", embed |-> e, ml |-> m, lbody |-> lb, lpar |-> lp, cmt |-> c, pick |-> 0])
+    \/ \E w \in WsKinds, e \in MultiEmbeds, m \in {"none", "own", "outer"}, pk \in 1..3,
+          lb \in {"plain", "compr", "pp", "nest"}, lp \in {"xy", "x", "none"}, c \in BOOLEAN :
+          /\ MultiValid(e, m, pk)
+          /\ Start([form |-> "lamobj", ws |-> w, deco |-> 0, pre |-> "none", hdr |-> "-", doc |-> 0, body |-> 0,
+                    tail |-> "-", embed |-> e, ml |-> m, lbody |-> lb, lpar |-> lp, cmt |-> c, pick |-> pk])
 
 -----------------------------------------------------------------------------------------------------------------------------------------------------
 (* property layer: the labels an operation earns, evaluated on the          *)
@@ -128,6 +133,8 @@ Classify ==
     /\ pc = "classify"
     /\ IF IsDef(lay) /\ ParseErr(Dedent(text)) # ""
        THEN Fail(ParseErr(Dedent(text)))          \* is_funcdef parses dedent(src) and raises
+       ELSE IF Unsupported(lay)
+       THEN Fail("ValueError")                    \* more than 1 lambda on the object's line
        ELSE /\ pc' = IF lay.form = "lamobj" THEN "extract" ELSE "dedent"
             /\ UNCHANGED <<lay, src, labels, g, text, cur, prev, res, op, arg, cn, nops>>
 
